@@ -78,6 +78,11 @@ def jobs(tier, seed):
     for (S, A, E, ds, da, de, off, pa) in _shapes(tier)[:3 if tier == "quick" else 6]:
         cfg = dict(S=S, A=A, E=E, ds=ds, da=da, de=de, offset=off, prob_array=pa, bs=2)
         out.append(dict(name=f"conseq-S{S}A{A}E{E}", kind="conseq", solver="vi", cfg=cfg, devices=1, seed=seed, cost=5))
+    # input classes that need something specific: > 256 actions (narrow index dtypes), non-integer state vectors,
+    # integer-typed initial value estimates
+    out.append(dict(name="special-many-actions", kind="special", variant="many_actions", devices=1, seed=seed, cost=40))
+    out.append(dict(name="special-float-states", kind="special", variant="float_states", devices=1, seed=seed, cost=5))
+    out.append(dict(name="special-int-initial-values", kind="special", variant="int_v0", devices=1, seed=seed, cost=5))
     for pname in ("forest", "de_moor", "hendrix", "mirjalili"):
         for dv in ([1] if tier == "quick" else [1, 2]):
             out.append(dict(name=f"shipped-{pname}-dev{dv}", kind="shipped", problem=pname, devices=dv, seed=seed, cost=30,
@@ -184,6 +189,8 @@ def run_job(job):
     seed = job.get("seed", 0)
     if job["kind"] == "shipped":
         return _run_shipped(job, ob)
+    if job["kind"] == "special":
+        return _run_special(job, ob)
     cfg = job["cfg"]
     S, A, E = cfg["S"], cfg["A"], cfg["E"]
     pb = kit.make_tab(cfg, seed)
@@ -263,6 +270,66 @@ def _run_conseq(job, ob, pb, solver, conc):
     return ob.result()
 
 
+def special_problem(variant, seed):
+    from ..tab import Tab
+    if variant == "many_actions":
+        S, A, E = 2, 300, 1
+        T, R, P, V0 = kit.rand_tables(S, A, E, seed)
+        return Tab(S, A, E, T=T, R=R, P=P), dict(S=S, A=A, E=E, bs=2)
+    if variant == "float_states":
+        S, A, E = 5, 2, 2
+        T, R, P, V0 = kit.rand_tables(S, A, E, seed)
+        return Tab(S, A, E, T=T, R=R, P=P, scale=0.5), dict(S=S, A=A, E=E, bs=2)
+    S, A, E = 4, 2, 2
+    T, R, P, V0 = kit.rand_tables(S, A, E, seed)
+    return Tab(S, A, E, T=T, R=R, P=P, V0=np.array([0, 3, -2, 7]), v0_int=True), dict(S=S, A=A, E=E, bs=3)
+
+
+def _run_special(job, ob):
+    """concrete successor table, symbolic rewards/values (gamma = 7/8): classes of problems the random Tab shapes do not reach"""
+    variant = job["variant"]
+    pb, cfg = special_problem(variant, job.get("seed", 0))
+    S, A, E = cfg["S"], cfg["A"], cfg["E"]
+    solver = kit.make_solver("vi", pb, max_batch_size=cfg["bs"])
+    Tidx = np.asarray(jax.vmap(jax.vmap(jax.vmap(pb.state_to_index)))(pb.T)).reshape(S, A, E)
+    Pc = np.asarray(pb.P)
+    v0c = np.asarray(solver.values)
+    gq = zx.Fraction(7, 8)
+    ex = pathx.Explorer()
+
+    def run():
+        with symbolic():
+            pb.R = sym("R", (S, A, E))
+            if variant != "int_v0":
+                solver.values = sym("V", (S,))
+            solver.gamma = jnp.asarray(float(gq))
+            new = solver._update_values(solver.batched_states, pb.action_space, pb.random_event_space, solver.gamma, solver.values)
+            solver_values_before = val_of(solver.values)
+            pol = solver._extract_policy()
+            return val_of(new), val_of(pol), solver_values_before, val_of(pb.R), str(getattr(new, "dtype", ""))
+    for o in ex.explore(run):
+        if o.exc is not None:
+            from ..harness import exc_origin
+            if exc_origin(o.exc) == "harness":
+                ob.fail_harness(f"harness raised: {o.exc!r}")
+                continue
+            ob.prove("no-exception", o.pc, False, cex=lambda m: dict(kind="special_exc", variant=variant, exc=repr(o.exc)))
+            continue
+        new, pol, V, Rsym, dt = o.value
+        L = ConcreteL(Tidx, np.zeros((S, A, E)), Pc)
+        L.R = Rsym
+        ob.reach("path", o.pc)
+        Q = kit.q_values(L, [zx.to_real(v) for v in V], gq)
+        B = [kit.zmax_list(row) for row in Q]
+        asp = np.asarray(pb.action_space)
+        cex = lambda m: dict(kind="special", variant=variant, R=kit.model_array(m, Rsym), V=kit.model_array(m, V))
+        for i in range(S):
+            ob.prove(f"sweep==bellman[{i}]", o.pc, zx.eq(new[i], B[i]) if new.shape == (S,) else False, cex=cex, kind="sweep == Bellman backup (special input classes)")
+            member, idx = kit.policy_row_index(list(pol[i]), asp)
+            ob.prove(f"policy_greedy[{i}]", o.pc, zx.land(member, zx.eq(kit.lookup(Q[i], idx), B[i])), cex=cex, kind="policy greedy (special input classes)")
+    return ob.result()
+
+
 def _run_shipped(job, ob):
     pb = small_shipped(job["problem"])
     S = pb.n_states
@@ -329,6 +396,32 @@ def replay(data):
     job = data["job"]
     if "error" in c:
         return False, c["error"]
+    if c.get("kind") in ("special", "special_exc"):
+        pb, cfg = special_problem(c["variant"], job.get("seed", 0))
+        S, A, E = cfg["S"], cfg["A"], cfg["E"]
+        solver = kit.make_solver("vi", pb, max_batch_size=cfg["bs"], gamma=0.875)
+        if c.get("kind") == "special_exc":
+            try:
+                solver.solve(1)
+                return False, "no exception"
+            except Exception as ex:
+                return True, f"{type(ex).__name__}: {ex}"
+        R = np.array(tofloat(c["R"]), dtype=float)
+        pb.R = jnp.asarray(R)
+        V = np.array(tofloat(c["V"]), dtype=float) if c["variant"] != "int_v0" else np.asarray(solver.values, dtype=float)
+        if c["variant"] != "int_v0":
+            solver.values = jnp.asarray(V)
+        Tidx = np.asarray(jax.vmap(jax.vmap(jax.vmap(pb.state_to_index)))(pb.T)).reshape(S, A, E)
+        P = np.asarray(pb.P)
+        Q = (P * (R + 0.875 * V[Tidx])).sum(-1)
+        B = Q.max(-1)
+        new = np.asarray(solver._update_values(solver.batched_states, pb.action_space, pb.random_event_space, solver.gamma, solver.values))
+        pol = np.asarray(solver._extract_policy())
+        asp = np.asarray(pb.action_space)
+        rows = [int(np.where((asp == pol[j]).all(1))[0][0]) for j in range(S)]
+        tol = 1e-7 * max(np.abs(R).max(), np.abs(V).max(), 1e-300)
+        bad = (not np.issubdtype(new.dtype, np.floating)) or np.abs(new - B).max() > tol or any(abs(Q[j, rows[j]] - B[j]) > tol for j in range(S))
+        return bool(bad), f"{c['variant']}: sweep {new[:4]} (dtype {new.dtype}) vs Bellman {B[:4]}; policy rows {rows[:4]} vs argmax {Q.argmax(-1)[:4].tolist()}"
     T = np.array(c["T"], dtype=np.int64)
     R = np.array(tofloat(c["R"]), dtype=float)
     P = np.array(tofloat(c["P"]), dtype=float)
